@@ -345,11 +345,13 @@ def case_metropolis(rec, n_step=None, n_range=None):
                        key="metropolis:total-probability", timeout_ms=60000)
 
 
-def _dynamic_paths(kind, depth, extra, i0):
+def _dynamic_paths(kind, depth, extra, i0, finite_div=False):
     def fn(ctx):
         integ = OrbitIntegrator()
         cls = T.MultinomialDynamicIntegrationTransition if kind == "multinomial" else T.SliceDynamicIntegrationTransition
-        tr = cls(OrbitSystem(), integ, max_tree_depth=depth, max_delta_h=math.inf, termination_criterion=crit,
+        # finite_div (slice sampler only): symbolic divergence threshold max_delta_h = log D, D > 0 a symbol
+        mdh = W.Log(W.wvar("D")) if finite_div else math.inf
+        tr = cls(OrbitSystem(), integ, max_tree_depth=depth, max_delta_h=mdh, termination_criterion=crit,
                  do_extra_subtree_checks=extra)
         st = ChainState(pos=i0, mom=Mom((i0,)), dir=1)
         if kind == "slice":
@@ -372,14 +374,14 @@ def _dynamic_paths(kind, depth, extra, i0):
             want = [W.RF(Poly.var(f"w{_idx(k)}"), Poly.var(f"w{_idx(i0)}")) for k in integ.visited]
             if sorted(r.key() for r in av.ratios) != sorted(w.key() for w in want):
                 raise AssertionError("acceptance statistic does not range over exactly the visited states")
-            if stats["accept_stat"] is not av:
+            if stats["accept_stat"] is not av and not stats.get("diverging"):
                 raise AssertionError("accept_stat != av_metrop_accept_prob on an error-free trajectory")
         vis = [i0] + integ.visited
         return int(out.pos), (min(vis), max(vis))
     return fn
 
 
-def case_dynamic(rec, kind, depth, extra):
+def case_dynamic(rec, kind, depth, extra, finite_div=False):
     install()
     MIN_MODE["stat_only"] = True
     rec.encoded(T.DynamicIntegrationTransition.sample, T.DynamicIntegrationTransition._build_tree,
@@ -390,7 +392,7 @@ def case_dynamic(rec, kind, depth, extra):
     terms = []
     t0 = time.time()
     for i0 in starts:
-        for (j, span), ctx in W.wexplore(_dynamic_paths(kind, depth, extra, i0)):
+        for (j, span), ctx in W.wexplore(_dynamic_paths(kind, depth, extra, i0, finite_div)):
             rec.path()
             rec.decisions += len(ctx.trace)
             if isinstance(j, tuple) and j[0] == "viol":
@@ -403,8 +405,43 @@ def case_dynamic(rec, kind, depth, extra):
     for i0, j, span, atoms, prob in terms:
         tl = frozenset((a, v) for a, v in atoms.items() if a[0] == "T")
         groups.setdefault((span, tl), []).append((i0, j, {a: v for a, v in atoms.items() if a[0] == "pos"}, prob))
-    label = f"{kind} depth={depth} extra_checks={extra}"
+    label = f"{kind} depth={depth} extra_checks={extra}" + (" finite symbolic divergence threshold" if finite_div else "")
     nq = 0
+    if finite_div:
+        # with a divergence threshold the per-trajectory lemma is not the right decomposition (which states are visited
+        # depends on the slice level); the slice sampler's conditions are linear in (L, w, D w), so the GLOBAL identity
+        # sum_i [L <= w_i] P(i -> 0 | L, T) == [L <= w_0] is posed directly, for every termination predicate T
+        names = {"w0", "L", "D"}
+        for i0, j, span, atoms, prob in terms:
+            names |= _vars_of([prob.n, prob.d]) | _atom_names(atoms) | {f"w{_idx(i0)}"}
+        V = {n: z3.Real(n) for n in names}
+        Tb = {}
+
+        def cond_all(atoms):
+            cs = []
+            for a, val in atoms.items():
+                if a[0] == "pos":
+                    pz, _ = W.rf_to_z3(RF(W.poly_from_key(a[1])), V)
+                    cs.append(pz > 0 if val else pz <= 0)
+                elif a[0] == "T":
+                    b = Tb.setdefault(a, z3.Bool(f"T_{a[1]}_{a[2]}".replace("-", "m")))
+                    cs.append(b if val else z3.Not(b))
+            return z3.And(*cs) if cs else z3.BoolVal(True)
+        lhs = []
+        for i0, j, span, atoms, prob in terms:
+            if j != 0:
+                continue
+            n_, d_ = W.rf_to_z3(prob, V)
+            lhs.append(z3.If(cond_all(atoms), n_ / d_, 0))
+        base = [v > 0 for v in V.values()] + [V["D"] >= 1]  # max_delta_h >= 0
+        rec.reachable(label, base)
+        rhs = z3.If(V["L"] <= V["w0"], z3.RealVal(1), z3.RealVal(0))
+        rec.obligation(f"{label}: sum_i [L<=w_i] P(i->0 | L, T) == [L<=w_0] for every L, D, T", base, z3.Sum(lhs + [z3.RealVal(0)]) != rhs,
+                       key=f"{kind}/depth{depth}/extra{extra}/div:global-balance",
+                       replay=lambda m: _replay_payload(m, V, {"kind": kind, "depth": depth, "extra": extra, "finite_div": True,
+                                                               "T": [[a[1], a[2], bool(z3.is_true(m.eval(b, model_completion=True)))] for a, b in Tb.items()]}),
+                       timeout_ms=600000)
+        return
     for (span, tl), items in sorted(groups.items(), key=lambda kv: (kv[0][0], sorted(map(str, kv[0][1])))):
         if not any(j == 0 for _, j, _, _ in items) and not any(i0 == 0 for i0, _, _, _ in items):
             continue
@@ -426,8 +463,8 @@ def case_dynamic(rec, kind, depth, extra):
         nq += 1
         tlits = sorted((a[1], a[2], v) for a, v in tl)
         rec.obligation(f"{label}: trajectory {span} T={tlits}: sum_i w_i P_G(i->0) == w_0 P_G(0->.)", base, neg,
-                       key=f"{kind}/depth{depth}/extra{extra}:trajectory-balance",
-                       replay=lambda m, V=V: _replay_payload(m, V, {"kind": kind, "depth": depth, "extra": extra,
+                       key=f"{kind}/depth{depth}/extra{extra}{'/div' if finite_div else ''}:trajectory-balance",
+                       replay=lambda m, V=V: _replay_payload(m, V, {"kind": kind, "depth": depth, "extra": extra, "finite_div": finite_div,
                                                                    "T": [[a, b, bool(v)] for a, b, v in tlits]}),
                        timeout_ms=180000)
     # total probability from start 0 is one (so the per-trajectory lemma sums to global invariance)
@@ -456,8 +493,11 @@ def case_dynamic(rec, kind, depth, extra):
     if kind == "slice" and "L" in V and "w0" in V:
         base.append(V["L"] <= V["w0"])
     rec.reachable(label, base)
-    rec.obligation(f"{label}: path probabilities from start 0 sum to 1", base, z3.Sum(tot) != 1, key=f"{kind}:total-probability",
-                   timeout_ms=180000)
+    # (total probability is one by construction of the enumeration - every coin fork multiplies by p and 1 - p; as a z3 query it
+    # only discharges at depth 1 and is posed there as a consistency check of the explorer)
+    if depth == 1:
+        rec.obligation(f"{label}: path probabilities from start 0 sum to 1", base, z3.Sum(tot) != 1, key=f"{kind}:total-probability",
+                       timeout_ms=120000)
 
 
 def cases(tier):
@@ -473,6 +513,9 @@ def cases(tier):
             for extra in (True, False):
                 out.append(Case(f"{kind}/depth{depth}/extra{extra}", case_dynamic, {"kind": kind, "depth": depth, "extra": extra},
                                 timeout_s=7200 if depth == 3 else 1500))
+    for extra in (True, False):
+        out.append(Case(f"slice/depth2/extra{extra}/divergence", case_dynamic, {"kind": "slice", "depth": 2, "extra": extra, "finite_div": True},
+                        timeout_s=3000))
     return out
 
 
@@ -584,7 +627,8 @@ def replay(cand):
     def make():
         integ = OrbitIntegrator()
         cls = T.MultinomialDynamicIntegrationTransition if kind == "multinomial" else T.SliceDynamicIntegrationTransition
-        return cls(CSys(), integ, max_tree_depth=depth, max_delta_h=math.inf, termination_criterion=ccrit,
+        mdh = math.log(float(wts.get("D", 1.0))) if p.get("finite_div") else math.inf
+        return cls(CSys(), integ, max_tree_depth=depth, max_delta_h=mdh, termination_criterion=ccrit,
                    do_extra_subtree_checks=extra), integ
     lim = 2 ** depth - 1
     if kind == "multinomial":
